@@ -66,7 +66,36 @@ def replay_weekend_sets(call):
     return dict(fails=bool(bad), detail='; '.join(bad[:3]) or '%d indexed operations over 14 weekend sets agree with day-by-day counting' % tried)
 
 
+def replay_constructor(call):
+    """native battery of the constructor clause: Calendar(key, holidays, weekend, t0, t1, adj) holds exactly the six items, weekend as a list
+    (default [5, 6]), holidays keyed by themselves, t0 / t1 the date range of the arguments, key / adj unchanged"""
+    from pyg_base import Calendar, as_list
+    from pyg_base._drange import date_range
+    from pyg_base._dates import TMIN, TMAX
+    bad, tried = [], 0
+    d1, d2, d3 = D(2020, 1, 1), D(2020, 1, 2), D(2020, 7, 3)
+    for hol in (None, [], [d1], [d2, d1], (d1, d3), d3, [d1, d1]):
+        for we in (None, [], [6], [4, 5], (0,), 3, [6, 5]):
+            for t0, t1 in ((None, None), (D(2019, 1, 1), None), (None, D(2021, 6, 1)), (D(2019, 3, 5), D(2021, 1, 1))):
+                for adj in ('m', 'f', 'p'):
+                    tried += 1
+                    key = 'replay_ctor_%d' % next(_ctr)
+                    try:
+                        cal = Calendar(key, holidays=hol, weekend=we, t0=t0, t1=t1, adj=adj)
+                    except Exception as e:      # noqa
+                        bad.append('Calendar(%r, holidays=%r, weekend=%r, t0=%r, t1=%r) raised %r' % (key, hol, we, t0, t1, e))
+                        continue
+                    hs = as_list(hol)
+                    e0, e1 = date_range(TMIN if t0 is None else t0, TMAX if t1 is None else t1)
+                    exp = dict(weekend=[5, 6] if we is None else as_list(we), holidays=dict(zip(hs, hs)), key=key, t0=e0, t1=e1, adj=adj)
+                    if dict(cal) != exp or list(cal['holidays']) != list(exp['holidays']) or type(cal) is not Calendar:
+                        bad.append('Calendar(%r, holidays=%r, weekend=%r, t0=%r, t1=%r, adj=%r) holds %r, expected %r' % (key, hol, we, t0, t1, adj, dict(cal), exp))
+    return dict(fails=bool(bad), detail='; '.join(bad[:2]) or '%d constructor calls hold exactly the six items prescribed' % tried)
+
+
 def replay(call):
+    if call.get('kind') == 'constructor':
+        return replay_constructor(call)
     if call.get('kind') == 'registry':
         return replay_registry(call)
     if call.get('kind') == 'weekend_sets':
